@@ -378,8 +378,40 @@ func (o *Once) Do(f func()) {
 
 func (o *Once) VerifDump() string { return fmt.Sprintf("Once(%v,%s)", o.done, o.m.VerifDump()) }
 
-// Pool is passed through.
-type Pool = sync.Pool
+// Pool is a deterministic stand-in for sync.Pool: Get returns the value put
+// last (sync.Pool may return any value that was put, or none; always re-using
+// is one of its legal behaviours and the one that exposes aliasing of pooled
+// values, and it keeps replays reproducible). Its operations are not scheduling
+// points.
+type Pool struct {
+	New   func() any
+	mu    sync.Mutex
+	items []any
+}
+
+func (p *Pool) Get() any {
+	p.mu.Lock()
+	if n := len(p.items); n > 0 {
+		x := p.items[n-1]
+		p.items = p.items[:n-1]
+		p.mu.Unlock()
+		return x
+	}
+	p.mu.Unlock()
+	if p.New != nil {
+		return p.New()
+	}
+	return nil
+}
+
+func (p *Pool) Put(x any) {
+	if x == nil {
+		return
+	}
+	p.mu.Lock()
+	p.items = append(p.items, x)
+	p.mu.Unlock()
+}
 
 func OnceFunc(f func()) func()             { return sync.OnceFunc(f) }
 func OnceValue[T any](f func() T) func() T { return sync.OnceValue(f) }
